@@ -501,6 +501,29 @@ fn large_sizes(ctx: &Ctx, base: u64) -> u64 {
     // a million take tens of seconds there and are left to the other algorithm
     go!(OptDensMinHash<f64, u64, FnvHasher>, "opt64", usize::MAX);
     go!(RevOptDensMinHash<f64, u64, FnvHasher>, "rev64", 1_000_003);
+    // very sparse sketches: 1, 2 or 3 items in more than 10^5 bins (almost every bin is filled by densification, the
+    // first empty bins need about m probes each: a probe cap or a fallback donor shows here)
+    macro_rules! sparse {
+        ($t:ty, $tag:expr) => {
+            let mut reported = false;
+            for &m in &[100_003usize, 131_072] {
+                for n in 1..=3u64 {
+                    for shift in 0..2u64 {
+                        cases += 1;
+                        if let Err(w) = large_size_case::<$t>(m, (base << 8) + 1000 * shift, n) {
+                            if !reported {
+                                reported = true;
+                                ctx.violation(&format!("sparse-large-size:{}", $tag), &w, json!({"kind": "large", "sketcher": $tag, "m": m, "base": (base << 8) + 1000 * shift, "n": n}));
+                            }
+                        }
+                    }
+                }
+            }
+        };
+    }
+    sparse!(OptDensMinHash<f64, u64, FnvHasher>, "opt64");
+    sparse!(OptDensMinHash<f32, u64, FnvHasher>, "opt32");
+    sparse!(RevOptDensMinHash<f64, u64, FnvHasher>, "rev64");
     go!(OptDensMinHash<f32, u64, FnvHasher>, "opt32", usize::MAX);
     go!(RevOptDensMinHash<f32, u64, FnvHasher>, "rev32", 65_537);
     cases
@@ -895,7 +918,7 @@ pub fn replay(_ctx: &Ctx, case: &Value) -> Result<(bool, String), String> {
         Some("large") => {
             let m = case["m"].as_u64().ok_or("m")? as usize;
             let base = case["base"].as_u64().ok_or("base")?;
-            let n = large_n(m);
+            let n = case["n"].as_u64().unwrap_or(large_n(m));
             let r = match case["sketcher"].as_str() {
                 Some("opt64") => large_size_case::<OptDensMinHash<f64, u64, FnvHasher>>(m, base, n),
                 Some("rev64") => large_size_case::<RevOptDensMinHash<f64, u64, FnvHasher>>(m, base, n),
